@@ -1,5 +1,6 @@
 # -*- coding: utf-8 -*-
 
+import copy
 import typing
 from builtins import *
 
@@ -24,7 +25,12 @@ class CanCluster(dict):
             for frame in self[matrixName].frames:  # type: canmatrix.Frame
                 if frame.name not in frame_names:
                     frame_names.append(frame.name)
-                    frames.append(frame)
+                    # the cluster view collects the senders and receivers of all buses in an object of its own:
+                    # the frame of the member matrix keeps what its own bus says
+                    merged = copy.copy(frame)
+                    merged.transmitters = list(frame.transmitters)
+                    merged.receivers = list(frame.receivers)
+                    frames.append(merged)
                 else:
                     index = frame_names.index(frame.name)
                     for transmitter in frame.transmitters:
@@ -42,7 +48,9 @@ class CanCluster(dict):
                 for signal in frame.signals:
                     if signal.name not in signal_names:
                         signal_names.append(signal.name)
-                        signals.append(signal)
+                        merged = copy.copy(signal)
+                        merged.receivers = list(signal.receivers)
+                        signals.append(merged)
                     else:
                         index = signal_names.index(signal.name)
                         for receiver in signal.receivers:
